@@ -74,6 +74,28 @@ func (ex *Exec) errorValue(msg string) Value {
 	return IfaceV{t: ex.w.errStringT, v: l}
 }
 
+func (ex *Exec) stringSlice(ss []string) Value {
+	arr := ex.newArray(types.Typ[types.String], len(ss))
+	for k, s := range ss {
+		ex.kid(arr, k).v = StringV{s: s}
+	}
+	return SliceV{arr: arr, len: len(ss), cap: len(ss)}
+}
+
+// writeTo calls Write(p) on an io.Writer interface value.
+func (ex *Exec) writeTo(w Value, p SliceV) Value {
+	iv := ex.ifaceOf(w)
+	if iv.t == nil {
+		ex.end("panic", "%s:nil-deref: Write on nil writer", ex.siteName())
+	}
+	sel := ex.prog.MethodSets.MethodSet(iv.t).Lookup(nil, "Write")
+	if sel == nil {
+		ex.unsupported("no Write method on %s", iv.t)
+	}
+	fn := ex.prog.MethodValue(sel)
+	return ex.call(fn, []Value{iv.v, p}, nil)
+}
+
 // nativeErr turns a native library error into an opaque error value (nil stays nil).
 func (ex *Exec) nativeErr(err error) Value {
 	if err == nil {
@@ -628,6 +650,53 @@ func init() {
 				return TupleV{IfaceV{t: it, v: val}, IfaceV{}}
 			}
 			return TupleV{IfaceV{}, ex.errorValue("not a number")}
+		},
+		"fmt.Fprintf": func(ex *Exec, fn *ssa.Function, a []Value) Value {
+			s := ex.sprintf(a[1], a[2])
+			return ex.writeTo(a[0], ex.newByteSlice(ex.strBytes(s)))
+		},
+		"fmt.Fprint": func(ex *Exec, fn *ssa.Function, a []Value) Value {
+			s := intrinsics["fmt.Sprint"](ex, fn, a[1:]).(StringV)
+			return ex.writeTo(a[0], ex.newByteSlice(ex.strBytes(s)))
+		},
+		"io.WriteString": func(ex *Exec, fn *ssa.Function, a []Value) Value {
+			return ex.writeTo(a[0], ex.newByteSlice(ex.strBytes(a[1].(StringV))))
+		},
+		"strings.Split": func(ex *Exec, fn *ssa.Function, a []Value) Value {
+			return ex.stringSlice(strings.Split(ex.argStr(a[0]), ex.argStr(a[1])))
+		},
+		"strings.SplitN": func(ex *Exec, fn *ssa.Function, a []Value) Value {
+			return ex.stringSlice(strings.SplitN(ex.argStr(a[0]), ex.argStr(a[1]), int(ex.argInt(a[2]))))
+		},
+		"strings.Fields": func(ex *Exec, fn *ssa.Function, a []Value) Value {
+			return ex.stringSlice(strings.Fields(ex.argStr(a[0])))
+		},
+		"strings.TrimSpace": func(ex *Exec, fn *ssa.Function, a []Value) Value {
+			return StringV{s: strings.TrimSpace(ex.argStr(a[0]))}
+		},
+		"strings.IndexByte": func(ex *Exec, fn *ssa.Function, a []Value) Value {
+			s := a[0].(StringV)
+			c := a[1].(*Term)
+			if s.concrete() && c.Op == OConst {
+				return ex.st.BVs(64, int64(strings.IndexByte(s.str(), byte(c.C))))
+			}
+			bs := ex.strBytes(s)
+			for k, b := range bs {
+				if ex.branch(ex.st.Eq(b, c)) {
+					return ex.st.BVs(64, int64(k))
+				}
+			}
+			return ex.st.BVs(64, -1)
+		},
+		"strconv.FormatFloat": func(ex *Exec, fn *ssa.Function, a []Value) Value {
+			f := a[0].(*Term)
+			if f.Op != OConst {
+				ex.unsupported("strconv.FormatFloat of a symbolic value")
+			}
+			return StringV{s: strconv.FormatFloat(f.F(), byte(ex.argInt(a[1])), int(ex.argInt(a[2])), int(ex.argInt(a[3])))}
+		},
+		"strconv.FormatInt": func(ex *Exec, fn *ssa.Function, a []Value) Value {
+			return StringV{s: strconv.FormatInt(ex.argInt(a[0]), int(ex.argInt(a[1])))}
 		},
 		"maps.Clone": func(ex *Exec, fn *ssa.Function, a []Value) Value {
 			m, _ := a[0].(*MapObj)
